@@ -29,6 +29,7 @@ pub mod keychecks;
 pub mod refchecks;
 pub mod c41;
 pub mod c42;
+pub mod c47;
 pub mod c48;
 pub mod c49;
 pub mod c50;
@@ -47,6 +48,7 @@ pub fn dispatch(id: &str, args: &[String]) -> ! {
         "C11" => c11::run(args),
         "C12" => c12::run(args),
         "C14" => c14::run(args),
+        "C47" => c47::run(args),
         "C48" => c48::run(args),
         "C49" => c49::run(args),
         "C50" => c50::run(args),
